@@ -85,7 +85,12 @@ def _short(x):
 
 STACKS = [("client", {}), ("pooled", {"max_pool_size": 1}), ("pooled", {"max_pool_size": 2}), ("hash", {}), ("hash-pooled", {"max_pool_size": 1}),
           # default_noreply given as a truthy value that is not a bool
-          ("client", {"default_noreply": 1}), ("pooled", {"max_pool_size": 1, "default_noreply": "yes"}), ("hash", {"default_noreply": 1})]
+          ("client", {"default_noreply": 1}), ("pooled", {"max_pool_size": 1, "default_noreply": "yes"}), ("hash", {"default_noreply": 1}),
+          # stacks built around a Client subclass (vlib/subclasses.py): one that settles default_noreply after the base constructor,
+          # one that connects in its constructor, one that maps keys into a namespace
+          ("client", {"client_class": "late-noreply"}), ("pooled", {"max_pool_size": 1, "client_class": "late-noreply"}), ("hash", {"client_class": "late-noreply"}),
+          ("pooled", {"max_pool_size": 1, "client_class": "eager"}), ("hash-pooled", {"max_pool_size": 1, "client_class": "eager", "client_class_how": "classattr"}),
+          ("pooled", {"max_pool_size": 2, "client_class": "namespace", "client_class_how": "classattr"})]
 
 
 def sweep_cases(tier, seed, interrupts=False, lib=None):
@@ -96,6 +101,9 @@ def sweep_cases(tier, seed, interrupts=False, lib=None):
                 for oi, r in enumerate(lib):
                     if ie and r["op"] not in faultlab.READ_OPS and tier == "quick" and (oi % 3):
                         continue       # ignore_exc only matters for reads; thin out the rest in the quick tier
+                    if "client_class" in extra and (ie or (tier == "quick" and oi % 2 and extra["client_class"] != "late-noreply")
+                                                    or (extra["client_class"] == "late-noreply" and "noreply" in r)):
+                        continue
                     if "default_noreply" in extra and ("noreply" in r or r["op"] in faultlab.READ_OPS or ie or not warm):
                         continue       # the spelled default only matters where the call relies on it
                     cfg = dict(extra, ignore_exc=ie)
